@@ -11,7 +11,7 @@ func init() {
 			"NOT decided: that the skiplist keeps (key,bornSn) order under concurrency, schedules, the behaviour as a whole.",
 		Assumptions: []string{"go/ssa faithfully represents the source", "user key comparators and io.Writers do not modify the byte slices they are given"},
 		Run: func(c *Ctx) {
-			c.Do("C01.a", "L5 visibility decision table", 4, func() { clVisibilityTable(c); clDeltaPredicateTable(c) })
+			c.Do("C01.a", "L5 visibility decision table", 4, func() { clVisibilityTable(c); clDeltaPredicateTable(c); clItemComparatorTables(c) })
 			c.Do("C01.b", "L1+L3 in-order collection guard", 5, func() { clCollectorGuard(c) })
 			c.Do("C01.c", "L11+L3 published items are immutable", 8, func() { clItemImmutable(c); clAllocItemInitialises(c) })
 			c.Do("C01.d", "L2 epoch capture", 7, func() { clEpochCapture(c) })
